@@ -4,7 +4,7 @@
 # Output: one line per check: "<ID> exit=<code> <last line>".
 set -u
 PATCH="$(readlink -f "$1")"; shift
-W=/tmp/mut-$$
+W=/tmp/mut-work; git -C /repo worktree remove --force "$W" >/dev/null 2>&1; rm -rf "$W"  # constant path: build artefacts are reused instead of piling up
 git -C /repo worktree add --detach "$W" HEAD >/dev/null 2>&1 || { echo "cannot create worktree"; exit 2; }
 if ! git -C "$W" apply "$PATCH"; then echo "patch does not apply"; git -C /repo worktree remove --force "$W"; exit 2; fi
 export NFV_REPO="$W" NFV_TARGET="${MUT_TARGET:-/tmp/mut-target}"
